@@ -88,9 +88,9 @@ theorem no_panic_both (e : Expr) :
     refine ⟨fun env hwf => ?_, fun env c h => by simp [WFColon] at h⟩
     by_cases hinc : op = .inc ∨ op = .dec
     · simp only [WF, hinc, if_true] at hwf
-      obtain ⟨n, rfl, _⟩ := isNameWord_elim hwf
+      obtain ⟨n, rfl, hvn⟩ := isNameWord_elim hwf
       rw [evalArith]
-      simp only [hinc, if_true]
+      simp only [hinc, if_true, wordOf_name hvn]
       exact andThen_ne_panic (setVar_ne_panic _ _ _) (fun _ _ => by simp)
     · simp only [WF, hinc, if_false, Bool.and_eq_true] at hwf
       rw [evalArith]
@@ -103,9 +103,9 @@ theorem no_panic_both (e : Expr) :
       by_cases hass : isAssign op = true
       · have hass' := (isAssign_iff op).1 hass
         simp only [WF, hass', if_true, Bool.and_eq_true] at hwf
-        obtain ⟨n, rfl, _⟩ := isNameWord_elim hwf.1
+        obtain ⟨n, rfl, hvn⟩ := isNameWord_elim hwf.1
         rw [evalArith]
-        simp only [hass, if_true]
+        simp only [hass, if_true, wordOf_name hvn]
         refine andThen_ne_panic (ihy.1 env hwf.2) (fun v env' => ?_)
         split
         · exact setVar_ne_panic _ _ _
@@ -186,7 +186,7 @@ theorem assign_ops_core (env : Env) (op aop : BinOp) (x : Bytes) (e : Expr)
         match binArit aop (atoi (env.get x)) arg with
         | .ok v => setVar env' x v
         | r => (r, env') := by
-    rw [evalArith]; simp only [h1, if_true, wordOf, hop]; rfl
+    rw [evalArith]; simp only [h1, if_true, wordOf_name hx, hop]; rfl
   have hInner : evalArith env (.binary aop (.word x) e) =
       andThen (evalArith env e) fun right env'' => (binArit aop (atoi (env.get x)) right, env'') := by
     rw [evalArith]
@@ -194,7 +194,7 @@ theorem assign_ops_core (env : Env) (op aop : BinOp) (x : Bytes) (e : Expr)
   have hR : evalArith env (.binary .assgn (.word x) (.binary aop (.word x) e)) =
       andThen (evalArith env (.binary aop (.word x) e)) fun arg env' => setVar env' x arg := by
     rw [evalArith]
-    simp [isAssign, wordOf, assignOp]
+    simp [isAssign, wordOf_name hx, assignOp]
   rw [hL, hR, hInner]
   cases hy : evalArith env e with
   | mk r env1 =>
